@@ -8,7 +8,8 @@ From Coq Require Import String.
 From Coq Require Import List Ascii ZArith Bool.
 From CGV Require Import Base.PyBase Base.PyVal Gen.FragGen Dialect.DialectImpl Frag.NDict Frag.StripImpl Frag.FragText
      Frag.StripFacts Frag.FragProofs Frag.FragStages Frag.FragSmall Frag.RingProofs
-     Gen.SmilesGen Frag.SmilesParse Frag.SmilesSpec Frag.SmilesProofs Frag.SmilesIndex Frag.SmilesRelabel Frag.SmilesPerm.
+     Gen.SmilesGen Frag.SmilesParse Frag.SmilesSpec Frag.SmilesProofs Frag.SmilesIndex Frag.SmilesRelabel Frag.SmilesPerm
+     Frag.Template Frag.TemplateProofs.
 Import ListNotations.
 
 (** The full statement
@@ -135,6 +136,56 @@ Example C13_index_nonvacuous :
      d' = [(0, [S ">2"; S "$a1"]); (3, [S "<3"]); (4, [S "!22"; S "$1"])]) /\
   (exists gr, graph_of false nv_toks = Ok gr /\ length (g_nodes gr) = 5 /\ length (g_edges gr) = 5).
 Proof. exact index_example. Qed.
+(** ------------------------------------------------------------------------------------------
+    The template fragment_iter builds (glue to Compose's [is_template]).  [fragment_template]
+    (Frag/Template.v) = strip machine, then the pysmiles model on the clean text, then the attribute
+    setting of read_fragment_smiles (fragname, fragid, weight; `bonding`; annotations); compared with
+    the final templates of the implementation on every run (attributes except hcount / rs_isomer,
+    bonds between the written atoms).  For a fragment rendered from tokens with descriptors after
+    their atoms it is [template_spec]: [strip_spec]'s descriptor / annotation dictionaries placed on
+    [graph_of false toks].  Not modelled: pysmiles' hydrogen completion / removal and stereo
+    post-processing (they add and remove hydrogen nodes and rewrite hcount; the per-run check of
+    Compose's is_templateb covers the final graph). *)
+Theorem C13_template_of_render : forall fo name toks dc,
+  wf toks dc = true -> excluded toks dc = false -> wf_smiles toks = true ->
+  fragment_template fo name (render (decorate toks dc)) = template_spec fo name toks dc.
+Proof. exact template_of_render. Qed.
+(** node i of the template is node i of the token graph (= the i-th atom token, C13_graph_nodes) with
+    the descriptors strip_spec reports for index i as `bonding` and its annotation; the edges are the
+    token graph's *)
+Theorem C13_template_nodes : forall fo name toks dc T clean d e a G,
+  template_spec fo name toks dc = Ok T -> strip_spec fo toks dc = Ok (clean, d, e, a) -> graph_of false toks = Ok G ->
+  length (t_nodes T) = length (g_nodes G) /\ t_edges T = g_edges G /\
+  forall i base, nth_error (g_nodes G) i = Some base ->
+    nth_error (t_nodes T) i = Some (template_node name base (nd_get i d) (nd_get i a)).
+Proof. exact template_spec_nodes. Qed.
+(** the attributes Compose's tattrs_ok reads, on a node whose annotation does not set the key *)
+Theorem C13_template_node_bonding : forall name base ds ann,
+  ann_lacks (S "bonding") ann -> aget (S "bonding") base = None ->
+  aget (S "bonding") (template_node name base ds ann) = option_map (fun l => VList (map VStr l)) ds.
+Proof. exact template_node_bonding. Qed.
+Theorem C13_template_node_fragname : forall name base ds ann, ann_lacks (S "fragname") ann ->
+  aget (S "fragname") (template_node name base ds ann) = Some (VStr name).
+Proof. exact template_node_fragname. Qed.
+Theorem C13_template_node_fragid : forall name base ds ann, ann_lacks (S "fragid") ann ->
+  aget (S "fragid") (template_node name base ds ann) = Some (VInt 0).
+Proof. exact template_node_fragid. Qed.
+Theorem C13_template_node_base : forall name base ds ann k, ann_lacks k ann ->
+  k <> S "fragname" -> k <> S "fragid" -> k <> S "weight" -> k <> S "bonding" ->
+  aget k (template_node name base ds ann) = aget k base.
+Proof. exact template_node_base. Qed.
+Example C13_template_nonvacuous :
+  wf nv_toks nv_dc = true /\ excluded nv_toks nv_dc = false /\ wf_smiles nv_toks = true /\
+  exists T, fragment_template fo0 (S "X") (render (decorate nv_toks nv_dc)) = Ok T /\
+    length (t_nodes T) = 5 /\
+    map (aget (S "bonding")) (t_nodes T) =
+      [Some (VList [VStr (S ">2"); VStr (S "$a1")]); None; None; Some (VList [VStr (S "<3")]);
+       Some (VList [VStr (S "!22"); VStr (S "$1")])] /\
+    map (aget (S "element")) (t_nodes T) = [Some (VStr (S "C")); Some (VStr (S "Cl")); Some (VStr (S "C")); Some (VStr (S "N")); Some (VStr (S "C"))] /\
+    map (aget (S "fragname")) (t_nodes T) = repeat (Some (VStr (S "X"))) 5 /\
+    t_edges T = [(0, 1, VInt 1); (0, 2, VInt 1); (2, 3, VInt 1); (3, 4, VInt 1); (4, 0, VInt 2)].
+Proof. exact template_example. Qed.
+
 (** text level of C01, ring-digit choice: re-labelling the ring-bond markers by any map that is
     injective on the numbers (another digit, %nn for a digit) does not change the graph; partial:
     start atom and branch order are not covered here *)
@@ -218,3 +269,5 @@ Print Assumptions C01_rendering_independent_partial.
 Print Assumptions C01_rendering_independent_text_partial.
 Print Assumptions C01_branch_order_partial.
 Print Assumptions C01_branch_order_text_partial.
+Print Assumptions C13_template_of_render.
+Print Assumptions C13_template_nodes.
